@@ -376,6 +376,7 @@ class Oracle:
             if pl0 == 0:
                 self.run_units = 0      # pricing tiers restart with the game
         self.bounds(op, u1)
+        self.display(op, run)
         if u1 != self.balance:
             self.fail("balance-mismatch", op=op, units=u1, reference=self.balance, units_before=u0)
             self.balance = u1
@@ -385,6 +386,20 @@ class Oracle:
             self.fail("audit-mismatch", op=op, audits=[str(x) for x in a],
                       reference=[self.coins, str(self.money), self.awards, self.service, self.paid])
             self.coins, self.money, self.awards, self.service, self.paid = a[0], Fraction(a[1]).limit_denominator(10 ** 6), a[2], a[3], a[4]
+
+    def display(self, op, run):
+        """the credits_string / credits_value machine variables show the balance (whole credits and the fraction)"""
+        m = run.m
+        s, v = m.variables.get_machine_var("credits_string"), m.variables.get_machine_var("credits_value")
+        if run.free_play():
+            want_s, want_v = "FREE PLAY", v
+        else:
+            u = run.units() or 0
+            whole, num = divmod(u, self.upg)
+            want_v = ("%d %d/%d" % (whole, num, self.upg) if whole else "%d/%d" % (num, self.upg)) if num else str(whole)
+            want_s = "CREDITS " + want_v
+        if (s, v) != (want_s, want_v):
+            self.fail("display-mismatch", op=op, credits_string=s, credits_value=v, expected=[want_s, want_v])
 
     def bounds(self, op, u):
         if u < 0:
@@ -401,6 +416,7 @@ class Oracle:
             self.fail("balance-not-int", op=op, units=repr(u))
             return
         self.bounds(op, u)
+        self.display(op, run)
         # time passing can only expire credits: the fraction of a credit, or all of them, exactly when their time is up
         expected = u_mid
         if frac_fired:
